@@ -766,7 +766,7 @@ impl<'c, KD: Kind, const N: usize> MapEng<'c, KD, N> {
                                         })
                                         .collect();
                                     let r = check_multiset(&po, &rest, true);
-                                    cx.chk(P10, r.is_ok(), "adaptor", || format!("{} after {} of {n} items: {}", $name, yielded.len(), r.clone().err().unwrap_or_default()));
+                                    cx.chk(P10.and(Prop::C05), r.is_ok(), "adaptor", || format!("{} after {} of {n} items: {}", $name, yielded.len(), r.clone().err().unwrap_or_default()));
                                     cx.log(|| format!("{} probe {}({pk}) -> {:?} tail {:?} count {:?}", $name, PROBE_NAMES[end - 3], po.got, po.tail, po.count));
                                 }
                             }
